@@ -163,9 +163,114 @@ fn history(s: &Session, seed: u64, len: usize, ch: &mut Chooser) -> Result<Strin
     Ok(label)
 }
 
+/// One fixed long history on `servers` (attempts go round-robin over the servers): honest / wrong proof / replay of the
+/// pair accepted 1, 16, 255, 256 or 4096 attempts earlier / the other server's honest pair. Every verdict and every
+/// refresh is judged as in `history`. A counter that saturates or wraps (attempt 256, 65536), a ring of remembered
+/// challenges, or state shared between two server objects shows here and in no short history.
+fn long_run(ss: &[&Session], seed: u64, n: usize) -> Result<u64, String> {
+    let mut servers: Vec<SrpServer> = ss.iter().map(|s| s.server.clone()).collect();
+    let mut seen: Vec<std::collections::HashSet<[u8; 16]>> = ss.iter().map(|s| [*s.server.reconnect_challenge_data()].into_iter().collect()).collect();
+    let mut accepted_pairs: Vec<Vec<([u8; 16], [u8; 20])>> = vec![vec![]; ss.len()];
+    let mut verdicts = 0u64;
+    for i in 0..n {
+        let si = i % ss.len();
+        let s = ss[si];
+        let current = *servers[si].reconnect_challenge_data();
+        let cdraw = refmodel::ctr_array::<16>(seed, &format!("c05-long-{i}-c"));
+        let (honest, _, _) = with_script(&cdraw, || s.client.calculate_reconnect_values(current));
+        let honest = honest.map_err(|m| format!("attempt {i}: calculate_reconnect_values panicked: {m}"))?;
+        let kind = (i / ss.len()) % 5;
+        let (cd, proof, what) = match kind {
+            0 | 3 => (honest.challenge_data, honest.proof, "honest".to_string()),
+            1 => {
+                let mut p = honest.proof;
+                p[(i / 7) % 20] ^= 1 << (i % 8);
+                (honest.challenge_data, p, "wrong proof".to_string())
+            }
+            2 => {
+                let back = [1usize, 16, 255, 256, 4096][(i / (5 * ss.len())) % 5];
+                let ap = &accepted_pairs[si];
+                if ap.len() >= back {
+                    let (d, p) = ap[ap.len() - back];
+                    (d, p, format!("replay of the pair accepted {back} acceptances ago"))
+                } else {
+                    (honest.challenge_data, honest.proof, "honest".to_string())
+                }
+            }
+            _ => {
+                // the honest pair computed by ANOTHER session's client for ITS server's challenge
+                let oi = (si + 1) % ss.len();
+                if oi == si {
+                    (honest.challenge_data, honest.proof, "honest".to_string())
+                } else {
+                    let oc = *servers[oi].reconnect_challenge_data();
+                    let (o, _, _) = with_script(&cdraw, || ss[oi].client.calculate_reconnect_values(oc));
+                    let o = o.map_err(|m| format!("attempt {i}: panicked: {m}"))?;
+                    (o.challenge_data, o.proof, "another connection's honest pair".to_string())
+                }
+            }
+        };
+        let reference = reconnect_proof(&s.user_norm, &cd, &current, &s.k);
+        let want = proof == reference;
+        let refresh = refmodel::ctr_array::<16>(seed, &format!("c05-long-{i}-s"));
+        let (got, _, _) = with_script(&refresh, || servers[si].verify_reconnection_attempt(cd, proof));
+        let got = got.map_err(|m| format!("attempt {i} of a long history ({what}): verify_reconnection_attempt panicked: {m}"))?;
+        if got != want {
+            return Err(format!("attempt {i} of a long history on {} interleaved server(s) ({what}): server returned {got}, but the presented proof {} SHA1(U|client_data|current challenge|K)", ss.len(), if want { "equals" } else { "differs from" }));
+        }
+        let after = *servers[si].reconnect_challenge_data();
+        if after == current {
+            return Err(format!("attempt {i} of a long history ({what}, verdict {got}): the server challenge was not replaced"));
+        }
+        if !seen[si].insert(after) {
+            return Err(format!("attempt {i} of a long history ({what}): the new challenge repeats an earlier one although the RNG supplied fresh bytes"));
+        }
+        for (oi, srv) in servers.iter().enumerate() {
+            if oi != si && *srv.reconnect_challenge_data() == after {
+                return Err(format!("attempt {i} of a long history: two server objects now offer the same challenge although the RNG supplied different bytes"));
+            }
+        }
+        if got {
+            accepted_pairs[si].push((cd, proof));
+        }
+        verdicts += 1;
+    }
+    Ok(verdicts)
+}
+
 pub fn run(tier: Tier, seed: u64) -> i32 {
     let report = Report::new("C05", tier, seed, "model_checking");
     let ss = sessions(tier, seed);
+    // long fixed histories: one server, and three servers interleaved
+    {
+        let n = tier.pick(70_000usize, 300_000usize);
+        let plans: Vec<Vec<&Session>> = vec![vec![&ss[0]], vec![&ss[0], &ss[1], &ss[2]], vec![&ss[1], &ss[1]]];
+        let results: Vec<(usize, Result<u64, String>)> = {
+            use rayon::prelude::*;
+            plans.par_iter().map(|p| (p.len(), long_run(p, seed, n))).collect()
+        };
+        for (k, r) in results {
+            match r {
+                Ok(v) => report.count("long_history_attempts", v),
+                Err(msg) => {
+                    let class = if msg.contains("not replaced") || msg.contains("same challenge") {
+                        "challenge-not-refreshed"
+                    } else if msg.contains("server returned true") {
+                        "accepted-wrong-proof"
+                    } else if msg.contains("server returned false") {
+                        "rejected-right-proof"
+                    } else if msg.contains("panicked") {
+                        "panic"
+                    } else {
+                        "challenge-value"
+                    };
+                    report.violation(Violation { signature: format!("C05|long-history|{class}"), scenario: "long-reconnect-history".into(), replay: json!({"seed": seed, "servers_interleaved": k, "attempts": n, "rerun": "./check.sh C05 quick"}), detail: json!({ "message": msg }) });
+                }
+            }
+        }
+        report.require("long_history_attempts");
+        report.space(&format!("three fixed histories of {n} attempts (one server; three servers of different accounts round-robin; two clones of one server) mixing honest, wrong, replayed (1/16/255/256/4096 acceptances back) and foreign pairs"));
+    }
     // (length, deviation bound) plans
     let plans: Vec<(usize, usize)> = if tier == Tier::Thorough { vec![(8, 2), (4, 3), (12, 1)] } else { vec![(6, 2), (10, 1)] };
     let mut total_exec = 0u64;
@@ -250,6 +355,7 @@ pub fn run(tier: Tier, seed: u64) -> i32 {
     report.require("histories_mixing_accept_and_reject");
     report.require("histories_all_accepted");
     report.set("distinct_outcomes", json!(distinct_outcomes.len()));
+    let total_exec = total_exec + report.get("long_history_attempts");
     report.set("evaluations", json!(total_exec));
     report.set("distinct_nontrivial", json!(total_exec.saturating_sub(ss.len() as u64 * plans.len() as u64)));
     report.set("rule", json!("every history of the stated length in which at most d attempts/refreshes deviate from {honest proof for the current challenge, fresh refresh}; per attempt the adversary alphabet is {replay of each earlier pair, proof for each stale challenge, 40 wrong-key variants, 2 wrong-username variants, 160 proof bit flips, 128 client-data bit flips}, per refresh {fresh, repeat of each earlier challenge}; distinct_nontrivial = executions with at least one deviation"));
